@@ -198,9 +198,77 @@ def _tighten(t, c):
     return t, c
 
 
+def _propagate(rows):
+    """integer bound propagation (presolve): returns True if some variable's interval becomes empty, else the
+    list of derived single-variable rows"""
+    lb, ub = {}, {}
+    for t, c in rows:
+        if len(t) == 1:
+            (x, a), = t.items()
+            if a > 0:
+                v = (-c) // a
+                if x not in ub or v < ub[x]:
+                    ub[x] = v
+            elif a < 0:
+                v = -((-c) // (-a))       # x >= ceil(c / -a)
+                if x not in lb or v > lb[x]:
+                    lb[x] = v
+    multi = [(t, c) for t, c in rows if len(t) > 1]
+    for _ in range(8):
+        changed = False
+        for t, c in multi:
+            for x, a in t.items():
+                rest = c
+                okb = True
+                for y, b in t.items():
+                    if y is x:
+                        continue
+                    if b > 0:
+                        if y not in lb:
+                            okb = False
+                            break
+                        rest += b * lb[y]
+                    else:
+                        if y not in ub:
+                            okb = False
+                            break
+                        rest += b * ub[y]
+                if not okb:
+                    continue
+                # a*x + rest <= 0
+                if a > 0:
+                    v = (-rest) // a
+                    if x not in ub or v < ub[x]:
+                        ub[x] = v
+                        changed = True
+                else:
+                    v = -((-rest) // (-a))
+                    if x not in lb or v > lb[x]:
+                        lb[x] = v
+                        changed = True
+                if x in lb and x in ub and lb[x] > ub[x]:
+                    return True
+        if not changed:
+            break
+    for x in lb:
+        if x in ub and lb[x] > ub[x]:
+            return True
+    out = []
+    for x, v in ub.items():
+        out.append(({x: 1}, -v))
+    for x, v in lb.items():
+        out.append(({x: -1}, v))
+    return out
+
+
 def _fm_unsat(rows):
     """rows: list of (dict atom->int, const) meaning sum + const <= 0"""
     STATS["fm_runs"] += 1
+    rows = [({k: v for k, v in t.items() if v}, c) for t, c in rows]
+    pr = _propagate(rows)
+    if pr is True:
+        return True
+    rows = rows + pr
     cur = {}
     for t, c in rows:
         t = {k: v for k, v in t.items() if v}
